@@ -7,7 +7,9 @@ miss=0; n=0
 for id in $ids; do
   # the checks recorded as catching it (normally the owning check; a few changes are caught by the check of a neighbouring property)
   prop=$(python3 -c "import json,sys;m=json.load(open('seeded/$id/meta.json'));c=[x.split('/')[0] for x in m.get('caught_by',[])];print(c[0] if c else m['property'])")
-  out=$(sh tools/evalmut.sh seeded/$id/patch.diff $prop 2>&1)
+  # a few changes need the thorough tier of their check (payloads beyond one block, the 128th repetition of a frame, ...)
+  tier=$(python3 -c "import json;m=json.load(open('seeded/$id/meta.json'));c=m.get('caught_by',[]);print('thorough' if c and all(x.endswith('/thorough') for x in c) else 'quick')")
+  out=$(TIER=$tier sh tools/evalmut.sh seeded/$id/patch.diff $prop 2>&1)
   rc=$(printf '%s\n' "$out" | sed -n 's/^== .* rc=\([0-9]*\).*/\1/p' | head -1)
   key=$(printf '%s\n' "$out" | sed -n 's/^violation key=\([^ ]*\).*/\1/p' | head -1)
   n=$((n+1))
